@@ -102,7 +102,7 @@ async def _two_connections():
     return log.events
 
 
-async def _client_sequence(behaviour="ok"):
+async def _client_sequence(behaviour="ok", sink=None):
     """one client task issuing operations one after the other, some of which fail (a queue that was never declared) or are
     cancelled (a consume() that times out): the operations that follow in the same task are top-level operations like any
     other -- one before signal each, an after signal iff they succeed"""
@@ -110,6 +110,8 @@ async def _client_sequence(behaviour="ok"):
     from repid import Connection, InMemoryBucketBroker, InMemoryMessageBroker
     from repid.data._buckets import ArgsBucket
     log = mw.MwLog()
+    if sink is not None:
+        sink.append(log)
     conn = Connection(InMemoryMessageBroker(), InMemoryBucketBroker(), InMemoryBucketBroker(use_result_bucket=True))
     mw.instrument_connection(log, conn, 1)
     conn.middleware.add_middleware(mw.recording_middleware(log, 1, behaviour))
@@ -145,7 +147,15 @@ async def _client_sequence(behaviour="ok"):
 def _client(behaviour):
     from harness import vloop
     vloop.setup()
-    return vloop.run(lambda loop: _client_sequence(behaviour))
+
+    async def bounded(loop):
+        # (a sequence that does not come to an end in 60 virtual seconds is cut off: what it logged so far is what is judged)
+        t = asyncio.ensure_future(_client_sequence(behaviour, sink := []))
+        try:
+            return await asyncio.wait_for(t, 60)
+        except asyncio.TimeoutError:
+            return sink[0].events + [{"e": "stuck"}] if sink else [{"e": "stuck"}]
+    return vloop.run(bounded)
 
 
 def _two(_):
